@@ -44,3 +44,20 @@ Definition agree_C12 (a b : out) : bool :=
                                            (map (fun v => (ve_ov_param v, ve_ov_used v)) (o_ventries b))
   && list_eqb (pair_eqb Bool.eqb Bool.eqb) (map (fun v => (fe_ov_param v, fe_ov_used v)) (o_fentries a))
                                            (map (fun v => (fe_ov_param v, fe_ov_used v)) (o_fentries b)).
+
+(** C04 reads the whole bind_groups section and the pipeline group list *)
+Definition agree_C04 (a b : out) : bool :=
+  option_eqb bind_groups_eqb
+    (option_map (fun bg => mkOutBindGroups
+       (map (fun g => mkOutGroup (og_no g) (og_layout_struct_no g) (og_layout_fields g) (og_desc_no g) (og_desc_label g)
+                        (map (fun e => mkOutEntry (oe_binding e) st_none (BTSampler SFiltering) true) (og_entries g))
+                        (og_impl_no g) (og_get_layout_desc_no g) (og_from_param_no g) (og_from_desc_no g)
+                        (og_bind_entries g) (og_bg_label g) (og_set_index g)) (bg_groups bg))
+       (bg_struct_fields bg) (bg_struct_set bg) (bg_fn_params bg) (bg_fn_set bg)) (o_bind_groups a))
+    (option_map (fun bg => mkOutBindGroups
+       (map (fun g => mkOutGroup (og_no g) (og_layout_struct_no g) (og_layout_fields g) (og_desc_no g) (og_desc_label g)
+                        (map (fun e => mkOutEntry (oe_binding e) st_none (BTSampler SFiltering) true) (og_entries g))
+                        (og_impl_no g) (og_get_layout_desc_no g) (og_from_param_no g) (og_from_desc_no g)
+                        (og_bind_entries g) (og_bg_label g) (og_set_index g)) (bg_groups bg))
+       (bg_struct_fields bg) (bg_struct_set bg) (bg_fn_params bg) (bg_fn_set bg)) (o_bind_groups b))
+  && list_eqb N.eqb (o_pl_groups a) (o_pl_groups b).
